@@ -2,7 +2,9 @@
 import json, os
 from tools import vlib
 
-THEOREMS = ["Rink.Spec.C04.eval_never_panics", "Rink.Spec.C04.evalExpr_noPanic", "Rink.Spec.C04.ctxOK_of_checks",
+THEOREMS = ["Rink.Spec.C04.query_never_panics", "Rink.Spec.C04.evalQuery_noPanic", "Rink.Spec.C04.evalUnitName_noPanic",
+            "Rink.Spec.C04.toList_noPanic", "Rink.Spec.C04.degreeConv_noPanic", "Rink.Spec.C04.noEmptyMul_of_b",
+            "Rink.Spec.C04.defShowOK_of_b", "Rink.Spec.C04.eval_never_panics", "Rink.Spec.C04.evalExpr_noPanic", "Rink.Spec.C04.ctxOK_of_checks",
             "Rink.Spec.C04.applyBin_noPanic", "Rink.Spec.C04.applyFunc_noPanic", "Rink.Spec.C04.get_noPanic",
             "Rink.Spec.C04.pow_noPanic", "Rink.Spec.C04.div_noPanic", "Rink.Spec.C04.rem_noPanic",
             "Rink.Spec.C04.shl_noPanic", "Rink.Spec.C04.shr_noPanic",
@@ -29,7 +31,7 @@ def run(c):
         "termination of lexer, parser and evaluator is Lean's own totality check on the model (structural or fuel recursion); running time and stack depth of the compiled Rust are exercised by the stream, not proved",
     ]
     c.assumptions += [
-        "the no-panic theorem covers eval_expr (every operator, function, temperature suffix, substance property); the panic sites of eval_query outside it (definition display, conversion targets, unit lists, temperature conversions) are in the model as explicit panic outcomes and are exercised by the stream, not yet proved unreachable",
+        "query_never_panics covers eval_query and eval_expr of the model (Number-valued evaluation, conversions, unit lists, temperature conversions, definition display, units for, factorize); its two per-query hypotheses (no empty product node in the conversion target; alias expansion of a displayed name ends) are evaluated by the model driver on every line of the stream (`model-hypothesis-violated` would be a disagreement), its two database hypotheses by `rinkmodel ctxok`; dates, substances as values, search and rendering are outside the model (`unsupported`) and covered by the stream only",
         "cheap / expensive is a lexical bound computed by the generator (harness/src/gen_totality.rs::classify): an input is expensive when it has two or more power-like operators (^, **, <<, >>, superscripts, exp, factorize), a number of four or more digits right after one of them or after an exponent marker or `digits` / `base`, or a power applied to the previous answer; only a time-out on a cheap input is a violation",
         "the budget is 3 s per input on a loaded machine; a time-out is re-run alone with 60 s before it counts",
         "the context is long-lived: sessions of 10-50 inputs share one Context (ans, the pinned clock), sessions are separated by `reset`",
